@@ -95,10 +95,12 @@ func cmdCheck(args []string) {
 		timeout = 60
 	}
 	work, _ := os.MkdirTemp("", "govc-"+*prop)
-	if os.Getenv("VERIF_KEEP") == "" {
-		defer os.RemoveAll(work)
-	} else {
-		fmt.Println("keeping SMT files in", work)
+	cleanup := func() {
+		if os.Getenv("VERIF_KEEP") == "" {
+			os.RemoveAll(work)
+		} else {
+			fmt.Println("keeping SMT files in", work)
+		}
 	}
 
 	var results []*FuncResult
@@ -152,17 +154,7 @@ func cmdCheck(args []string) {
 			all[i], all[j] = all[j], all[i]
 		}
 	}
-	Discharge(all, work, timeout, seed, 12)
-	// retry undecided ones once with a longer timeout
-	var retry []*Obligation
-	for _, o := range all {
-		if o.Status != "unsat" && o.Status != "sat" && !o.ExpectSat {
-			retry = append(retry, o)
-		}
-	}
-	if len(retry) > 0 && len(retry) <= 40 {
-		Discharge(retry, filepath.Join(work, "retry"), timeout*3, seed+1, 6)
-	}
+	DischargeAll(all, work, timeout, seed, 12)
 
 	findings := loadFindings(filepath.Join(root, "known_findings.txt"))
 	known := map[string]finding{}
@@ -299,6 +291,7 @@ func cmdCheck(args []string) {
 	os.WriteFile(filepath.Join(root, "evidence", *prop+".json"), eb, 0o644)
 	fmt.Printf("property %s tier %s: %d functions, %d obligations, %d discharged, %d known findings, %d violations, %d vacuity probes, %.1fs\n",
 		*prop, *tier, len(results), nObl, nDis, len(seenKnown), nViol, nVac, time.Since(start).Seconds())
+	cleanup()
 	if broken > 0 {
 		os.Exit(2)
 	}
